@@ -54,6 +54,11 @@ class Namer:
             elif r < 0.05 and prefix in ('t', 'e', 'g', 'c') and 'public' not in self.all_issued:
                 name = 'public'
                 self.classes.add('named-public')
+            elif r < 0.065 and prefix == 'e':
+                cand = self.rng.choice(['interval', 'Year', 'date', 'time', 'json', 'float', 'double', 'real', 'char', 'blob', 'enum', 'string', 'number'])
+                if cand not in self.all_issued:
+                    name = cand
+                    self.classes.add('enum-named-like-sql-type')
             prev.append(name)
         self.all_issued.add(name)
         return name
@@ -87,7 +92,7 @@ class Namer:
         if f == 'dash':
             return base + '-d'
         if f == 'unicode':
-            return base + self.rng.choice(['é', 'ж', '名', 'ß'])
+            return base + self.rng.choice(['é', 'ж', '名', 'ß', 'ı', 'İ', 'ſ', '\u212a', 'ǅ', 'ﬁ'])
         if f == 'bslash':   # names are literal: a backslash is an ordinary character of a quoted name
             return base + self.rng.choice(['\\', '\\n', 'a\\b', '\\\\x'])
         if f == 'punct':
@@ -139,6 +144,8 @@ class Texts:
                 lines.append('')
                 if self.rng.random() < 0.3:
                     lines.append('')          # two consecutive empty lines inside a text
+                    if self.coin and self.rng.random() < 0.4:
+                        lines += [''] * self.rng.choice([1, 2, 4])      # ... or three and more
         # normal form: min indent 0 is guaranteed by the first line
         return '\n'.join(lines)
 
@@ -166,7 +173,7 @@ def rand_default(rng, tx, kinds=None):
         return am.Default('null', None)
     if kind == 'expr':
         return am.Default('expr', rng.choice(['now()', 'id * 2', "concat('a', 'b')", 'uuid_generate_v4()', '(1 + 2)', '(a) + (b)',
-                                              "regexp_replace(body, E'\\n', ' ')", 'a  +  b']))
+                                              "regexp_replace(body, E'\\n', ' ')", 'a  +  b', '', ' ', "replace(p, 'C:\\temp', '\\t')"]))
     return am.Default('str', tx.line('d'))
 
 
@@ -272,9 +279,15 @@ def random_doc(rng, size='small', text_profile='plain', flavours=CORE_FLAVOURS, 
             ix.note = maybe(0.3, lambda: tx.note('ixnote', small_ml))
             ix.comment = maybe(0.2 if comments else 0, lambda: tx.comment())
             t.indexes.append(ix)
+        if coin and rng.random() < 0.06:
+            # an index over five and more subjects
+            subj = [('col', c.name) for c in t.columns] + [('expr', x) for x in ['id*2', 'lower(name)', 'a + b', 'now()', 'x', 'y']]
+            rng.shuffle(subj)
+            t.indexes.append(am.Index(subj[:rng.randint(5, min(9, len(subj)))], unique=rng.random() < 0.5))
+            doc.classes.add('index-many-subjects')
         if pk_layout == 'index':
             k = rng.randint(1, min(2, len(t.columns)))
-            t.indexes.append(am.Index([('col', c.name) for c in t.columns[:k]], pk=True))
+            t.indexes.insert(rng.randint(0, len(t.indexes)), am.Index([('col', c.name) for c in t.columns[:k]], pk=True))
         doc.tables.append(t)
     # references: every unordered endpoint pair at most once
     used = set()
@@ -314,10 +327,14 @@ def random_doc(rng, size='small', text_profile='plain', flavours=CORE_FLAVOURS, 
                             if rng.random() < 0.5:
                                 mk = {'>': '<', '<': '>', '-': '-'}[kind]
                                 tc = next(x for x in doc.tables[t2].columns if x.name == c2)
-                                tc.inline_refs.append(am.InlineRef(mk, ti, c.name))
+                                if not any((q.kind, q.target, q.col) == (mk, ti, c.name) for q in tc.inline_refs):
+                                    tc.inline_refs.append(am.InlineRef(mk, ti, c.name))
+                                    doc.classes.add('mirrored-inline-ref')
                             else:
-                                c.inline_refs.append(am.InlineRef(rng.choice([k_ for k_ in ('>', '<', '-') if k_ != kind]), t2, c2))
-                            doc.classes.add('mirrored-inline-ref')
+                                k2_ = rng.choice([k_ for k_ in ('>', '<', '-') if k_ != kind])
+                                if not any((q.kind, q.target, q.col) == (k2_, t2, c2) for q in c.inline_refs):
+                                    c.inline_refs.append(am.InlineRef(k2_, t2, c2))
+                                    doc.classes.add('mirrored-inline-ref')
                         break
     for _ in range(rng.randint(0, 1 + big)):
         k = rng.choice([1, 1, 1, 2, 3])
@@ -358,6 +375,28 @@ def random_doc(rng, size='small', text_profile='plain', flavours=CORE_FLAVOURS, 
         p.comment = maybe(0.3 if comments else 0, lambda: tx.comment())
         doc.project = p
     if coin:
+        # a string default spelled exactly like an item of the column's own enum
+        for t in doc.tables:
+            for c in t.columns:
+                if c.type.kind == 'enum' and rng.random() < 0.15:
+                    itn = rng.choice(doc.enums[c.type.enum].items).name
+                    if "'" not in itn and '\\' not in itn and '\n' not in itn:
+                        c.default = am.Default('str', itn)
+                        doc.classes.add('default-equals-enum-item')
+        # two references with one name
+        named = [r for r in doc.refs if r.name is not None]
+        if named and len(doc.refs) >= 2 and rng.random() < 0.15:
+            o_ = rng.choice([r for r in doc.refs if r is not named[0]])
+            o_.name = named[0].name
+            doc.classes.add('reference-name-twice')
+        # a standalone reference over the endpoints of an inline one, with another kind (two different relationships)
+        inl = [(ti, c, r) for ti, t in enumerate(doc.tables) for c in t.columns for r in c.inline_refs if r.target != ti]
+        if inl and rng.random() < 0.08:
+            ti, c, r = rng.choice(inl)
+            kind2 = rng.choice([k_ for k_ in ('>', '<', '-') if k_ != r.kind])
+            if (kind2, ti, (c.name,), r.target, (r.col,)) not in ref_keys(doc):
+                doc.refs.append(am.Ref(kind2, ti, [c.name], r.target, [r.col], form=rng.choice(['short', 'block'])))
+                doc.classes.add('standalone-twin-of-inline-ref')
         # an enum called exactly like a table of the same schema (different kinds of element, no clash)
         if doc.enums and rng.random() < 0.06:
             e, t = rng.choice(doc.enums), rng.choice(doc.tables)
@@ -378,6 +417,18 @@ def random_doc(rng, size='small', text_profile='plain', flavours=CORE_FLAVOURS, 
     rng.shuffle(doc.order)
     doc.classes |= nm.classes
     return doc
+
+
+def ref_keys(doc):
+    """identity of every reference of the document as the library compares them: (kind, table 1, columns 1, table 2, columns 2)"""
+    keys = set()
+    for ti, t in enumerate(doc.tables):
+        for c in t.columns:
+            for r in c.inline_refs:
+                keys.add((r.kind, ti, (c.name,), r.target, (r.col,)))
+    for r in doc.refs:
+        keys.add((r.kind, r.t1, tuple(r.cols1), r.t2, tuple(r.cols2)))
+    return keys
 
 
 def features(doc):
@@ -769,6 +820,15 @@ def graph_doc(rng, shape, n, same_bare_names=False, cyclic=False, kinds=('>', '<
             tc = am.Column(nm('rk', 'bare'), am.ColType('plain', 'int'))
             T.columns.append(tc)
             tc.inline_refs.append(am.InlineRef('<', h, hc.name))
+    # self references (a hierarchy column): sometimes on every table, so that every table holds at least one key
+    allself = rng.random() < 0.12
+    for ti_, t in enumerate(doc.tables):
+        if allself or rng.random() < 0.06:
+            for _n in range(rng.choice([1, 1, 2])):
+                sc = am.Column(nm('self', 'bare'), am.ColType('plain', 'int'))
+                sc.inline_refs.append(am.InlineRef(rng.choice(['>', '<']), ti_, t.columns[0].name))
+                t.columns.append(sc)
+            doc.classes.add('self-reference')
     # aliases; sometimes the alias of a key-holding table is spelled like ANOTHER table's name (legal: the keys differ)
     for t in doc.tables:
         if rng.random() < 0.25:
